@@ -66,6 +66,12 @@ impl MultiUidCompactor {
         let output_label = SegmentId::from(shared_output_segment_id).dir_name();
         let output_dir = self.shard_dir.join(&output_label);
 
+        // The output id is not in the segment index, so a directory of that name can only be
+        // the leftover of an earlier failed run; column writers append, so never reuse it.
+        if output_dir.exists() {
+            std::fs::remove_dir_all(&output_dir)
+                .map_err(|e| CompactorError::ZoneWriter(e.to_string()))?;
+        }
         // Ensure output directory exists once for all UIDs
         std::fs::create_dir_all(&output_dir)
             .map_err(|e| CompactorError::ZoneWriter(e.to_string()))?;
@@ -95,10 +101,20 @@ impl MultiUidCompactor {
                     "Compacting UID to shared output segment"
                 );
             }
-            let result = self
+            let result = match self
                 .compact_uid(uid_plan, shared_output_segment_id, &output_dir)
                 .await
-                .map_err(|e| CompactorError::ZoneWriter(format!("UID {}: {}", uid_plan.uid, e)))?;
+            {
+                Ok(result) => result,
+                Err(e) => {
+                    // do not leave a half-written output segment behind
+                    let _ = std::fs::remove_dir_all(&output_dir);
+                    return Err(CompactorError::ZoneWriter(format!(
+                        "UID {}: {}",
+                        uid_plan.uid, e
+                    )));
+                }
+            };
             results.insert(uid_plan.uid.clone(), result);
         }
 
